@@ -511,6 +511,15 @@ def c04_reset(ctx):
             for t in stores_to(n):
                 if t.startswith("self.") and t.count(".") == 1:
                     created[t[5:]] = n
+    # ... and containers that exist only per call (created by a per-call method): they count as well, so that moving
+    # a creation out of __init__ (where it is redundant once every call re-creates it) changes nothing
+    for st_ in cls.body:
+        if isinstance(st_, ast.FunctionDef) and st_.name != "__init__":
+            for n in body_walk(st_):
+                if isinstance(n, ast.Assign) and _fresh_container(n.value):
+                    for t in stores_to(n):
+                        if t.startswith("self.") and t.count(".") == 1:
+                            created.setdefault(t[5:], n)
     ctx.need(created, "no container attribute created in Parallel.__init__")
     # per-call functions: every method of Parallel except __init__, and the callback class
     percall = [st for st in cls.body if isinstance(st, ast.FunctionDef) and st.name != "__init__"]
@@ -748,7 +757,7 @@ def c01_lock(ctx, only_iterator=False):
         ok, why = held_at(ctx.res, node, LOCK_NAMES, LOCK, entry, SCOPE)
         ctx.check(ok, node, "%s runs with the dispatch lock held: %s" % (what, why),
                   "%s can run WITHOUT the dispatch lock (%s): callback threads and the caller thread race on it" % (what, why))
-    ctx.floor(n, 4 if only_iterator else 14, "guarded operations on dispatch state")
+    ctx.floor(n, 4 if only_iterator else 10, "guarded operations on dispatch state")
     if only_iterator:
         return
     # the lock is re-acquired by the thread that holds it (callback -> _register_outcome, iterator-error path):
